@@ -1,1 +1,114 @@
-def main : IO Unit := IO.println "stub"
+import Nsq.Model.Line
+import Nsq.Model.ToFile
+import Nsq.Model.Split
+import Nsq.Model.Relay
+import Nsq.Model.ToFileTrace
+/-! Driver for engine E8 (tools): one operation per input line, one canonical answer line out.
+
+`tf …`  nsq_to_file router model (stateful: conf / pre / events / tree)
+`sp …`  to_nsq record splitter
+`rl …`  relay handlers (nsq_to_nsq, nsq_to_http)
+`tr …`  syscall-trace checker (FIN only after fsync)
+-/
+open Nsq Nsq.Line
+
+namespace E8
+open Nsq.Model.ToFile
+
+def pad6 (n : Nat) : String :=
+  let s := toString n
+  String.ofList (List.replicate (6 - s.length) '0') ++ s
+
+def render (p : Path) : String :=
+  (if p.out then "o/" else "w/") ++ p.tmpl.replace "<REV>" ("-" ++ pad6 p.rev)
+
+def statusName : Status → String
+  | .running => "running" | .done => "done" | .fatalExit => "fatal" | .killed => "killed"
+  | .panicked => "panic" | .diverged => "diverged"
+
+def liveNames (fs : FS) : List Path :=
+  (fs.dom.eraseDups).filter (fun p => (fs.get p).isSome)
+
+def sortStr (xs : List String) : List String := xs.mergeSort (fun a b => decide (a ≤ b))
+
+def filesLine (fs : FS) (full : Bool) : String :=
+  let items := (liveNames fs).filterMap fun p =>
+    match fs.get p with
+    | none => none
+    | some f => some (render p ++ (if full then "=" ++ hex f.data else ":" ++ toString f.data.length))
+  ",".intercalate (sortStr items)
+
+structure D where
+  cfg : Cfg := ⟨false, 0, 0, false, false, 1, true⟩
+  st : St := init FS.empty
+  nfin : Nat := 0
+
+def stateLine (d : D) : String × D :=
+  let newFins := (d.st.finished.take (d.st.finished.length - d.nfin)).reverse
+  let fins := " ".intercalate (newFins.map fun m => toString m.id)
+  (s!"st={statusName d.st.status} fin=[{fins}] files={filesLine d.st.fs false}",
+   { d with nfin := d.st.finished.length })
+
+def noFault : Nat → Fault := fun _ => .ok
+
+def b01 (s : String) : Option Bool := if s = "1" then some true else if s = "0" then some false else none
+
+def strOfHex (s : String) : Option String := (unhex s).map bytesToString
+
+def tfStep (d : D) (ws : List String) : String × D :=
+  match ws with
+  | ["conf", gz, rs, ri, wd, se, mif, hr] =>
+    match b01 gz, rs.toNat?, ri.toInt?, b01 wd, b01 se, mif.toNat?, b01 hr with
+    | some gz, some rs, some ri, some wd, some se, some mif, some hr =>
+      ("ok", { cfg := ⟨gz, rs, ri, wd, se, mif, hr⟩, st := init FS.empty, nfin := 0 })
+    | _, _, _, _, _, _, _ => ("bad-op", d)
+  | ["pre", dir, tmpl, rev, data] =>
+    match strOfHex tmpl, rev.toNat?, unhex data with
+    | some tmpl, some rev, some data =>
+      let p : Path := ⟨dir = "o", tmpl, rev⟩
+      ("ok", { d with st := { d.st with fs := d.st.fs.set p ⟨data, [], data.length⟩ } })
+    | _, _, _ => ("bad-op", d)
+  | ["msg", id, body, now, fn, starved] =>
+    match id.toNat?, unhex body, now.toInt?, strOfHex fn, b01 starved with
+    | some id, some body, some now, some fn, some sv =>
+      stateLine { d with st := step d.cfg noFault d.st (.msg ⟨id, body⟩ now fn) sv }
+    | _, _, _, _, _ => ("bad-op", d)
+  | ["tick", now, fn] =>
+    match now.toInt?, strOfHex fn with
+    | some now, some fn => stateLine { d with st := step d.cfg noFault d.st (.tick now fn) false }
+    | _, _ => ("bad-op", d)
+  | ["ext", dir, tmpl, rev, data] =>
+    match strOfHex tmpl, rev.toNat?, unhex data with
+    | some tmpl, some rev, some data =>
+      stateLine { d with st := step d.cfg noFault d.st (.ext ⟨dir = "o", tmpl, rev⟩ data) false }
+    | _, _, _ => ("bad-op", d)
+  | ["hup"] => stateLine { d with st := step d.cfg noFault d.st .hup false }
+  | ["term"] => stateLine { d with st := step d.cfg noFault d.st .term false }
+  | ["stopped"] => stateLine { d with st := step d.cfg noFault d.st .stopped false }
+  | ["termstop"] => stateLine { d with st := step d.cfg noFault (step d.cfg noFault d.st .term false) .stopped false }
+  | ["tree"] => (s!"st={statusName d.st.status} tree={filesLine d.st.fs true}", d)
+  | _ => ("bad-op", d)
+
+end E8
+
+def stepLine (d : E8.D) (line : String) : String × E8.D :=
+  if line.startsWith "#" then (line, d) else
+  match words line with
+  | "tf" :: ws => E8.tfStep d ws
+  | "sp" :: ws => (Nsq.Model.Split.driverLine ws, d)
+  | "rl" :: ws => (Nsq.Model.Relay.driverLine ws, d)
+  | "tr" :: ws => (Nsq.Model.ToFileTrace.driverLine ws, d)
+  | "trm" :: ws => (Nsq.Model.ToFileTrace.driverLineM ws, d)
+  | _ => ("bad-op", d)
+
+partial def loop (h : IO.FS.Stream) (out : IO.FS.Stream) (d : E8.D) : IO Unit := do
+  let line ← h.getLine
+  if line.isEmpty then return ()
+  let (ans, d') := stepLine d (line.dropRightWhile (· == '\n'))
+  out.putStrLn ans
+  loop h out d'
+
+def main : IO Unit := do
+  let out ← IO.getStdout
+  loop (← IO.getStdin) out {}
+  out.flush
